@@ -66,6 +66,20 @@ def value_xml(cx, prefixes, tag, rng, allow_lang=True):
         a, text = ' xml:lang="%s"' % rng.choice(["en", "fr-CA"]), rng.choice(STRINGS)
     else:
         a, text = ' xsi:type="%s:MyType"' % rng.choice(prefixes), rng.choice(STRINGS)
+    r2 = rng.random()
+    if r2 < 0.08:
+        # a prefix declared on the attribute element itself, used by its own name, its xsi:type or its QName value
+        a = ' xmlns:chd="http://child.test/"' + a
+        how = rng.choice(["name", "type", "value"])
+        if how == "name" and ":" in tag and not tag.startswith(("prov:", "p:")) and cx.pn("x").split(":")[0] != tag.split(":")[0]:
+            tag = "chd:" + tag.split(":", 1)[1]
+        elif how == "type" and 'xsi:type="xsd:QName"' not in a and "xsi:type" not in a and "xml:lang" not in a:
+            a += ' xsi:type="chd:Kind"'
+        elif 'xsi:type="xsd:QName"' in a:
+            text = "chd:" + rng.choice(LOCALS)
+    elif r2 < 0.13 and ":" in tag and not tag.startswith(("prov:", "p:", "xsd:", "xsi:")) and cx.pn("x").split(":")[0] != tag.split(":")[0]:
+        # a prefix of the document bound to another namespace on this element only
+        a = ' xmlns:%s="http://rebound-child.test/"' % tag.split(":")[0] + a
     return "<%s%s>%s</%s>" % (tag, a, escape(text), tag)
 
 
@@ -103,7 +117,11 @@ def record_xml(cx, prefixes, rng, ind):
                 if kind == "hadMember" and f == "entity" and rng.random() < 0.3:
                     n = rng.choice([2, 3])
                 for l in rng.sample(LOCALS, n):
-                    kids.append("<%s %s=%s/>" % (cx.pn(f), cx.pattr("ref"), quoteattr(rng.choice(lp) + ":" + l)))
+                    if rng.random() < 0.06:
+                        # the reference names its target through a prefix declared on the reference element itself
+                        kids.append('<%s %s=%s xmlns:rf="http://ref.test/"/>' % (cx.pn(f), cx.pattr("ref"), quoteattr("rf:" + l)))
+                    else:
+                        kids.append("<%s %s=%s/>" % (cx.pn(f), cx.pattr("ref"), quoteattr(rng.choice(lp) + ":" + l)))
     # schema order of the extra attributes: label, location, role, type, value, then others
     for an in ["label", "location", "role", "type", "value"]:
         if rng.random() < 0.2 and not (an == "value" and kind != "entity") \
